@@ -2,6 +2,7 @@
 
 Spec: specs/pq/PQ.tla, PQMC (graph), PQTrace.
 """
+import itertools
 import json
 from decimal import Decimal
 from fractions import Fraction
@@ -23,13 +24,16 @@ CONCS = {
     "tuple-tasks/float-prios": (lambda t: (t, "task"), lambda p: None if p == 99 else float(p)),
     "int-tasks/int-prios": (lambda t: 7000 + t, lambda p: None if p == 99 else p),
     # falsy and None tasks; priorities of every numeric type in one queue (equal numbers of different types tie)
-    "falsy-tasks/mixed-prios": (lambda t: (None, 0, "", (), frozenset(), 0.5)[t] if t < 6 else ("t", t),
-                                lambda p: None if p == 99 else (True if p == 1 else False if p == 0 else
-                                                                [p, float(p), Fraction(p), Decimal(p)][p % 4])),
+    "falsy-tasks/mixed-prios": (lambda t: (None, 0, "", (), frozenset(), 0.5)[t - 1] if 1 <= t <= 6 else ("t", t),
+                                # (the type changes from call to call: 2, 2.0, Fraction(2) and Decimal(2) tie and arrival decides)
+                                lambda p, _c=itertools.count(): None if p == 99 else
+                                [p, float(p), Fraction(p), Decimal(p), bool(p) if p in (0, 1) else p][next(_c) % 5]),
     # the constructor's priority_key option: callers hand in negated numbers and the key turns them back into the
     # effective priority (smaller key value = served first); numeric strings and very large ints under the default key
     "str-tasks/negated-prios+priority_key": (lambda t: "t%d" % t, lambda p: None if p == 99 else -p, {"priority_key": lambda p: float(p or 0)}),
     "str-tasks/numeric-string-prios": (lambda t: "t%d" % t, lambda p: None if p == 99 else "%d" % p if p % 2 else "%d.0" % p),
+    # priorities that are not whole numbers (p -> 3p/8 as float / Fraction / Decimal: a key that rounded or truncated would tie 0.375 and -0.375 with 0)
+    "str-tasks/fractional-prios": (lambda t: "t%d" % t, lambda p: None if p == 99 else [p * 0.375, Fraction(3 * p, 8), Decimal(p) * Decimal("0.375")][p % 3]),
     "int-tasks/huge-int-prios": (lambda t: 7000 + t, lambda p: None if p == 99 else p * 2 ** 60),
 }
 VARIANTS = [("HeapPriorityQueue", None), ("SortedPriorityQueue", None), ("SortedPriorityQueue", 1), ("SortedPriorityQueue", 3)]
@@ -85,10 +89,12 @@ class Driver(GenericAdapter):
                     q.add(task=self.T(op["t"])) if kwform else q.add(self.T(op["t"]))
                 elif kwform:
                     q.add(task=self.T(op["t"]), priority=self.P(op["p"]))
+                elif self.calls % 3 == 1:
+                    q.add(self.T(op["t"]), priority=self.P(op["p"]))
                 else:
                     q.add(self.T(op["t"]), self.P(op["p"]))
             elif n == "remove":
-                q.remove(self.T(op["t"]))
+                q.remove(task=self.T(op["t"])) if kwform else q.remove(self.T(op["t"]))
             elif n == "pop":
                 v = [self.dec(q.pop() if op["d"] == -1 else q.pop(default=self.default) if kwform else q.pop(self.default))]
             elif n == "peek":
@@ -125,7 +131,16 @@ class Driver(GenericAdapter):
         else:
             out.append(-1)       # did not become empty
         try:
-            if q.pop("DEFAULT") != "DEFAULT" or q.peek("DEFAULT") != "DEFAULT" or q.pop(None) is not None or q.peek(0) != 0 or len(q) != 0:
+            class Anything:               # equal to everything: a default is recognised by identity, not by comparison
+                def __eq__(self, other):
+                    return True
+
+                def __ne__(self, other):
+                    return False
+                __hash__ = None
+            any_, lst_ = Anything(), []
+            if q.pop("DEFAULT") != "DEFAULT" or q.peek("DEFAULT") != "DEFAULT" or q.pop(None) is not None or q.peek(0) != 0 or len(q) != 0 or \
+                    q.pop(any_) is not any_ or q.peek(any_) is not any_ or q.pop(lst_) is not lst_ or q.peek(default=lst_) is not lst_:
                 out.append(-2)
         except Exception:
             out.append(-3)
@@ -228,14 +243,14 @@ def main(tier, seed):
     stats.add_tlc(r)
     g = Graph(r)
     stats.extra["graph_states"], stats.extra["graph_edges"] = len(g.states), g.n_edges
-    for cn in (list(CONCS) if thorough else [list(CONCS)[0], list(CONCS)[3], list(CONCS)[4]]):
+    for cn in (list(CONCS) if thorough else [list(CONCS)[0], list(CONCS)[3], list(CONCS)[4], "str-tasks/fractional-prios"]):
         core.replay_graph_generic(g, Driver(cn), verdict, stats)
     canary(stats)
     traces = record(400 if thorough else 80, 3000 if thorough else 400, seed)
     core.validate_traces_generic(SPECDIR, "PQTrace.tla", "PQTrace.cfg", traces, stats, verdict, Driver.subject,
                                  sig_extra=lambda tr, ev: {"cls": tr["kind"], "factor": tr["factor"]})
-    bulk = record_bulk(seed, 30000 if thorough else 24000, ["HeapPriorityQueue", "SortedPriorityQueue"])
-    stats.extra["bulk_queue_entries"] = 30000 if thorough else 24000
+    bulk = record_bulk(seed, 60000 if thorough else 24000, ["HeapPriorityQueue", "SortedPriorityQueue"])
+    stats.extra["bulk_queue_entries"] = 60000 if thorough else 24000
     core.validate_traces_generic(SPECDIR, "PQTrace.tla", "PQTrace.cfg", bulk, stats, verdict, Driver.subject, shards=2,
                                  sig_extra=lambda tr, ev: {"cls": tr["kind"], "factor": "shipped", "bulk": True})
     stats.sample({"trace_kind": traces[0]["kind"], "first_events": traces[0]["ev"][:4]})
